@@ -326,43 +326,322 @@ Proof.
   rewrite abs_log, abs_put_sched; [done|]. eapply live_abs; [exact H1|]. by exists j, sc.
 Qed.
 
+(** ** save, restart, shutdown *)
+Definition rmids (s : state) : list nat :=
+  map fst (List.filter (fun ij => negb (j_removed (snd ij)) && should_remove s (fst ij) (snd ij)) (imap (fun i j => (i, j)) (st_jobs s))).
+
+Lemma map_imap_abs (f : nat → job → job) (g : nat → rjob → rjob) (l : list job) :
+  (∀ i j, abs_job (f i j) = g i (abs_job j)) → map abs_job (imap f l) = imap g (map abs_job l).
+Proof.
+  intros H. apply list_eq. intros i. change (map abs_job) with (fmap (M:=list) abs_job).
+  rewrite list_lookup_fmap, !list_lookup_imap, list_lookup_fmap. destruct (l !! i); simpl; [|done]. by rewrite H.
+Qed.
+
+Lemma abs_save s : abs (do_save s) = r_save (abs s) (rmids s).
+Proof.
+  unfold do_save, r_save, abs. simpl. f_equal.
+  apply map_imap_abs. intros i j. fold (rmids s). unfold in_ids. destruct (existsb (Nat.eqb i) (rmids s)); [|done].
+  unfold remove_job, r_remove. absjob.
+Qed.
+
+Definition store_ok (s : state) : Prop := Forall (pjob_ok (st_now s)) (default [] (st_store s)).
+
+Lemma pjob_ok_mono now now' pj : (now <= now')%Z → pjob_ok now pj → pjob_ok now' pj.
+Proof. intros Hle [H1 H2]. split; [lia|]. intros t Ht. destruct (H2 t Ht). lia. Qed.
+
+Lemma save_store_ok s : RInv (abs s) → store_ok (do_save s).
+Proof.
+  intros Hinv. unfold store_ok, do_save. simpl. apply Forall_forall. intros pj Hpj.
+  apply elem_of_list_omap in Hpj as ([i j'] & Hin & Hsome). simpl in Hsome. destruct (j_removed j') eqn:Hr; [done|].
+  injection Hsome as <-. apply elem_of_lookup_imap in Hin as (i' & j0 & Heq & Hlk). injection Heq as <- <-.
+  rewrite list_lookup_imap in Hlk. destruct (st_jobs s !! i) as [j|] eqn:Hj; [|done]. simpl in Hlk. injection Hlk as <-.
+  assert (Hj' : rs_jobs (abs s) !! i = Some (abs_job j)) by (by rewrite abs_lookup, Hj).
+  assert (Hsame : ∀ b : bool, j_created (if b then remove_job j else j) = j_created j ∧ j_start (if b then remove_job j else j) = j_start j)
+    by (by intros []).
+  destruct (Hsame (existsb (Nat.eqb i) (map fst (List.filter (fun ij => negb (j_removed ij.2) && should_remove s ij.1 ij.2)
+                                                  (imap (fun i j => (i, j)) (st_jobs s)))))) as [Hc Hs].
+  split; simpl.
+  - rewrite Hc. apply (inv_created _ _ Hinv i (abs_job j) Hj').
+  - intros t Ht. rewrite Hs in Ht. rewrite Hc.
+    destruct (inv_start _ _ Hinv i (abs_job j) t Hj' Ht) as [H1 H2]. simpl in H1, H2. lia.
+Qed.
+
+Lemma from_pjob_terminal now pj : pjob_ok now pj → r_terminal now (abs_job (from_pjob pj)) = true.
+Proof.
+  intros [Hc Hs]. apply terminal_spec. unfold abs_job, from_pjob, r_is_running, r_is_waiting. simpl.
+  destruct (pj_start pj) as [t|] eqn:Hst; simpl.
+  - destruct (Hs t eq_refl).
+    split; [by destruct (pj_completed pj), (pj_canceled pj)|].
+    split; [done|]. split; [done|]. split; [done|]. split; [done|]. split; [done|].
+    intros tt [= <-]. lia.
+  - rewrite orb_true_r. repeat split; try done.
+Qed.
+
+Lemma tombstone_terminal s i j :
+  RInv (abs s) → st_jobs s !! i = Some j → r_terminal (st_now s) (abs_job (tombstone j)) = true.
+Proof.
+  intros Hinv Hj. assert (Hj' : rs_jobs (abs s) !! i = Some (abs_job j)) by (by rewrite abs_lookup, Hj).
+  apply terminal_spec. unfold abs_job, tombstone, r_is_running, r_is_waiting. simpl.
+  split; [destruct (j_start j); [by rewrite andb_false_r|done]|].
+  split; [done|]. split; [by destruct (j_start j)|]. split; [done|].
+  split; [apply (inv_created _ _ Hinv i (abs_job j) Hj')|]. split; [done|].
+  intros t Ht. apply (inv_start _ _ Hinv i (abs_job j) t Hj' Ht).
+Qed.
+
+Lemma abs_restart s s' :
+  RInv (abs s) → store_ok s → do_restart s = Some s' → ∃ js, r_restart (abs s) js = Some (abs s').
+Proof.
+  intros Hinv Hst. unfold do_restart. destruct (st_shutg s); [done|]. destruct (all_quiet s); [|done].
+  intros [= <-].
+  set (jobs' := imap (fun i j => match find (fun pj => Nat.eqb (pj_id pj) i) (default [] (st_store s)) with
+                                | Some pj => from_pjob pj | None => tombstone j end) (st_jobs s)).
+  exists (map abs_job jobs'). unfold r_restart. simpl.
+  assert (Hall : forallb (r_terminal (st_now s)) (map abs_job jobs') = true).
+  { apply forallb_forall. intros rj Hin. apply elem_of_list_In in Hin. change (map abs_job) with (fmap (M:=list) abs_job) in Hin.
+    apply elem_of_list_fmap in Hin as (j' & -> & Hin).
+    apply elem_of_lookup_imap in Hin as (i & j & -> & Hj).
+    destruct (find _ (default [] (st_store s))) as [pj|] eqn:Hf.
+    - apply from_pjob_terminal. apply find_some in Hf as [Hin _]. unfold store_ok in Hst. rewrite Forall_forall in Hst.
+      apply Hst. by apply elem_of_list_In.
+    - by eapply tombstone_terminal. }
+  rewrite Hall. done.
+Qed.
+
+Lemma abs_shutdown_begin s s' : do_shutdown_begin s = Some s' → abs s' = r_shutdown (abs s).
+Proof.
+  unfold do_shutdown_begin. destruct (st_shutg s); [done|]. destruct (st_shut s); [done|]. intros [= <-].
+  unfold abs, r_shutdown. simpl. f_equal. apply map_imap_abs. intros i j. unfold in_ids. simpl.
+  destruct (existsb _ _); [|done]. unfold set_canceled, r_set_canceled. absjob.
+Qed.
+
+Lemma abs_cancel_fold l s :
+  abs (fold_left (fun s id => (cancel_job s id true).1) l s) = fold_left (fun s id => (r_cancel s id).1) l (abs s).
+Proof.
+  revert s. induction l as [|id l IH]; intros s; simpl; [done|]. rewrite IH. f_equal.
+  pose proof (abs_cancel_request s id) as H. by rewrite <- H.
+Qed.
+
+Lemma abs_shutdown_force s s' : do_shutdown_force s = Some s' → abs s' = r_cancel_all (abs s).
+Proof.
+  unfold do_shutdown_force. destruct (st_shutg s) as [[]|]; try done. destruct (any_running s); [|done]. intros [= <-].
+  unfold r_cancel_all. assert (Hl : length (rs_jobs (abs s)) = length (st_jobs s)) by (simpl; apply map_length).
+  rewrite Hl, <- abs_cancel_fold. reflexivity.
+Qed.
+
+Lemma abs_shutdown_return s s' : do_shutdown_return s = Some s' → abs s' = r_save (abs s) (rmids s).
+Proof.
+  unfold do_shutdown_return. destruct (st_shutg s) as [f|]; [|done]. destruct (_ && _); [|done]. intros [= <-].
+  rewrite <- abs_save. done.
+Qed.
+
 (** ** the refinement theorem *)
 Theorem refine_step s e s' r :
-  RInv (abs s) → step s e = Some (s', r) →
-  (abs s' = abs s ∧ r = RNone) ∨ ∃ re, rstep (abs s) re = Some (abs s', r) ∧ (∀ ds, re = RvReload ds → e = EvReload ds).
+  RInv (abs s) → store_ok s → step s e = Some (s', r) →
+  (abs s' = abs s ∧ r = RNone) ∨ ∃ re, rstep (abs s) re = Some (abs s', r) ∧ (∀ ds, re = RvReload ds → e = EvReload ds) ∧ (∀ js, re = RvRestart js → e = EvRestart).
 Proof.
-  intros Hinv. unfold step.
+  intros Hinv Hst. unfold step.
   assert (Hinv' : RInv (abs (clear_req s))) by done.
-  destruct e as [p v u|id|d|id|ds|id|id n|id n|id n o|id|id]; simpl.
+  destruct e as [p v u|id|d|id|ds|id|id n|id n|id n o|id|id| | | | | ]; simpl.
   - intros [= Heq]. right. exists (RvSchedule p (graph_ok (new_job (clear_req s) p (default zero_def (lookup_def (st_defs s) p)) v u))
                        (r_snap (abs_job (new_job (clear_req s) p (default zero_def (lookup_def (st_defs s) p)) v u)))).
-    split; [|done]. simpl. rewrite <- (abs_schedule (clear_req s)). simpl. by rewrite Heq.
-  - intros [= Heq]. right. exists (RvCancel id). split; [|done]. simpl. rewrite <- (abs_cancel_request (clear_req s)). by rewrite Heq.
-  - intros [= <- <-]. right. by exists (RvTick d).
+    split; [|by split]. simpl. rewrite <- (abs_schedule (clear_req s)). simpl. by rewrite Heq.
+  - intros [= Heq]. right. exists (RvCancel id). split; [|by split]. simpl. rewrite <- (abs_cancel_request (clear_req s)). by rewrite Heq.
+  - intros [= <- <-]. right. exists (RvTick d). split; [done|by split].
   - destruct (do_fire_timer (clear_req s) id) as [s1|] eqn:Hf; simpl; [|done]. intros [= <- <-].
-    right. exists (RvFire id). split; [|done]. simpl. rewrite <- (abs_fire (clear_req s)). by rewrite Hf.
-  - intros [= <- <-]. right. exists (RvReload ds). split; [done|]. by intros ds' [= ->].
+    right. exists (RvFire id). split; [|by split]. simpl. rewrite <- (abs_fire (clear_req s)). by rewrite Hf.
+  - intros [= <- <-]. right. exists (RvReload ds). split; [done|]. split; [by intros ds' [= ->]|done].
   - destruct (do_iter_begin (clear_req s) id) as [s1|] eqn:Hf; simpl; [|done]. intros [= <- <-].
-    left. split; [|done]. by rewrite (abs_iter_begin _ _ _ Hf).
+    left. split; [|by split]. by rewrite (abs_iter_begin _ _ _ Hf).
   - destruct (do_visit (clear_req s) id n) as [s1|] eqn:Hf; simpl; [|done]. intros [= <- <-].
-    left. split; [|done]. by rewrite (abs_visit _ _ _ _ Hf).
+    left. split; [|by split]. by rewrite (abs_visit _ _ _ _ Hf).
   - destruct (do_run_begin (clear_req s) id n) as [s1|] eqn:Hf; simpl; [|done]. intros [= <- <-].
-    left. split; [|done]. by rewrite (abs_run_begin _ _ _ _ Hinv' Hf).
+    left. split; [|by split]. by rewrite (abs_run_begin _ _ _ _ Hinv' Hf).
   - destruct (do_run_end (clear_req s) id n o) as [s1|] eqn:Hf; simpl; [|done]. intros [= <- <-].
-    left. split; [|done]. by rewrite (abs_run_end _ _ _ _ _ Hinv' Hf).
+    left. split; [|by split]. by rewrite (abs_run_end _ _ _ _ _ Hinv' Hf).
   - destruct (do_cancel_deliver (clear_req s) id) as [s1|] eqn:Hf; simpl; [|done]. intros [= <- <-].
-    left. split; [|done]. by rewrite (abs_cancel_deliver _ _ _ Hf).
+    left. split; [|by split]. by rewrite (abs_cancel_deliver _ _ _ Hf).
   - destruct (do_sched_return (clear_req s) id) as [s1|] eqn:Hf; simpl; [|done]. intros [= <- <-].
-    right. destruct (abs_sched_return _ _ _ Hf) as [ec Hec]. exists (RvComplete id ec). split; [|done]. simpl.
+    right. destruct (abs_sched_return _ _ _ Hf) as [ec Hec]. exists (RvComplete id ec). split; [|by split]. simpl.
     change (abs (clear_req s)) with (abs s) in Hec. by rewrite Hec.
+  - intros [= <- <-]. right. exists (RvSave (rmids (clear_req s))). split; [|by split]. simpl. by rewrite abs_save.
+  - destruct (do_restart (clear_req s)) as [s1|] eqn:Hf; simpl; [|done]. intros [= <- <-].
+    destruct (abs_restart (clear_req s) s1 Hinv' Hst Hf) as [js Hjs]. right. exists (RvRestart js). split; [|by split].
+    simpl. change (abs (clear_req s)) with (abs s) in Hjs. by rewrite Hjs.
+  - destruct (do_shutdown_begin (clear_req s)) as [s1|] eqn:Hf; simpl; [|done]. intros [= <- <-].
+    right. exists RvShutdown. split; [|by split]. simpl. by rewrite (abs_shutdown_begin _ _ Hf).
+  - destruct (do_shutdown_force (clear_req s)) as [s1|] eqn:Hf; simpl; [|done]. intros [= <- <-].
+    right. exists RvCancelAll. split; [|by split]. simpl. by rewrite (abs_shutdown_force _ _ Hf).
+  - destruct (do_shutdown_return (clear_req s)) as [s1|] eqn:Hf; simpl; [|done]. intros [= <- <-].
+    right. exists (RvSave (rmids (clear_req s))). split; [|by split]. simpl. by rewrite (abs_shutdown_return _ _ Hf).
+Qed.
+
+(** the store and the clock are touched by very few events *)
+Definition keeps (s s' : state) : Prop := st_store s' = st_store s ∧ st_now s' = st_now s.
+Lemma keeps_refl s : keeps s s. Proof. done. Qed.
+Lemma keeps_trans s1 s2 s3 : keeps s1 s2 → keeps s2 s3 → keeps s1 s3.
+Proof. intros [? ?] [? ?]. split; congruence. Qed.
+Lemma keeps_upd s id f : keeps s (upd_job s id f). Proof. done. Qed.
+Lemma keeps_wait s p l : keeps s (set_wait s p l). Proof. done. Qed.
+Lemma keeps_log s o : keeps s (log s o). Proof. done. Qed.
+Lemma keeps_req s : keeps s (request_persist s). Proof. done. Qed.
+Lemma keeps_put s id sc : keeps s (put_sched s id sc). Proof. done. Qed.
+Lemma keeps_logdir s id : keeps s (add_log_dir s id). Proof. done. Qed.
+
+Lemma keeps_try_start s id : keeps s (try_start s id).1.
+Proof.
+  unfold try_start. destruct (find_job s id) as [j|]; [|done]. destruct (j_canceled j); [done|].
+  destruct (graph_ok j); done.
+Qed.
+
+Lemma keeps_dequeue_loop fuel s p : keeps s (dequeue_loop fuel s p).
+Proof.
+  revert s. induction fuel as [|x fuel IH]; intros s; simpl; [done|].
+  destruct (wl_get (st_wait s) p) as [|h rest]; [done|]. destruct (get_job s h) as [j|]; [|done].
+  destruct (_ && _); [|done]. eapply keeps_trans; [|apply IH].
+  eapply keeps_trans; [apply (keeps_wait s p rest)|apply keeps_try_start].
+Qed.
+
+Lemma keeps_start_job s id p : keeps s (start_job s id p).
+Proof.
+  unfold start_job. pose proof (keeps_try_start s id) as H. destruct (try_start s id) as [s1 failed]. simpl in H.
+  destruct failed; [|done]. eapply keeps_trans; [exact H|apply keeps_dequeue_loop].
+Qed.
+
+Lemma keeps_cancel s id b : keeps s (cancel_job s id b).1.
+Proof.
+  unfold cancel_job. destruct (find_job s id) as [j|]; [|done]. destruct (j_canceled j); [done|].
+  destruct (j_completed j); [done|]. destruct (j_start j); simpl.
+  - by destruct (j_sched j).
+  - eapply keeps_trans; [|apply keeps_req]. eapply keeps_trans; [|apply keeps_dequeue_loop]. done.
+Qed.
+
+Lemma keeps_hsc s id n st : keeps s (handle_stage_change s id n st).
+Proof. unfold handle_stage_change. destruct (find_job s id) as [j|]; [|done]. by destruct (find_task j n). Qed.
+
+Lemma keeps_htc s id n t : keeps s (handle_task_change s id n t).
+Proof.
+  unfold handle_task_change. destruct (find_job s id) as [j|]; [|done]. destruct (find_task j n); [|done].
+  eapply keeps_trans; [|apply keeps_req].
+  match goal with |- keeps s (if ?c then _ else ?s1) => destruct c; [|done] end.
+  destruct (lookup_def _ _) as [d|]; [|done]. destruct (pd_continue d); [done|].
+  eapply keeps_trans; [|apply keeps_cancel]. done.
+Qed.
+
+Lemma keeps_stage_end s id n r : keeps s (stage_end s id n r).
+Proof.
+  unfold stage_end. destruct (get_job s id) as [j|]; [|done]. destruct (j_sched j) as [sc|]; [|done].
+  destruct r as [e|].
+  - destruct (match find_task j n with Some t => td_allow (jt_def t) | None => false end).
+    + eapply keeps_trans; [|apply keeps_hsc]. eapply keeps_trans; [|apply keeps_put]. eapply keeps_trans; [|apply keeps_hsc]. done.
+    + eapply keeps_trans; [|apply keeps_put]. eapply keeps_trans; [|apply keeps_hsc]. done.
+  - eapply keeps_trans; [|apply keeps_hsc]. done.
+Qed.
+
+Lemma keeps_fold_cancel l s : keeps s (fold_left (fun s id => (cancel_job s id true).1) l s).
+Proof.
+  revert s. induction l as [|x l IH]; intros s; simpl; [done|]. eapply keeps_trans; [apply keeps_cancel|apply IH].
+Qed.
+
+Lemma keeps_step s e s' r :
+  step s e = Some (s', r) →
+  match e with
+  | EvTick d => st_store s' = st_store s ∧ st_now s' = (st_now s + Z.of_nat d)%Z
+  | EvSave => s' = do_save (clear_req s)
+  | EvShutdownReturn => st_store s' = st_store (do_save (clear_req s)) ∧ st_now s' = st_now s
+  | _ => keeps s s'
+  end.
+Proof.
+  unfold step. change (st_store s) with (st_store (clear_req s)). change (st_now s) with (st_now (clear_req s)).
+  assert (Hk : keeps s (clear_req s)) by done. generalize dependent (clear_req s). intros s0 Hk.
+  assert (Hfin : ∀ s1, keeps s0 s1 → keeps s s1) by (intros s1; by apply keeps_trans).
+  destruct e as [p v u|id|d|id|ds|id|id n|id n|id n o|id|id| | | | | ]; simpl.
+  - intros [= Heq]. replace s' with (do_schedule s0 p v u).1 by (by rewrite Heq). apply Hfin.
+    unfold do_schedule. destruct (st_shut _); [done|]. destruct (lookup_def _ _) as [d|]; [|done].
+    destruct (resolve_action _ _ _); try done; cbn [fst].
+    + eapply keeps_trans; [|apply keeps_start_job]. done.
+    + destruct (last _); done.
+  - intros [= Heq]. replace s' with (cancel_job s0 id true).1 by (by rewrite Heq). apply Hfin, keeps_cancel.
+  - destruct Hk as [-> ->]. by intros [= <- _].
+  - unfold do_fire_timer. destruct (get_job _ id) as [j|]; [|done]. destruct (timer_due _ j); [|done].
+    destruct (find_job _ id); simpl.
+    + destruct (j_canceled j); simpl; intros [= <- _]; apply Hfin; [done|]. eapply keeps_trans; [|apply keeps_dequeue_loop]. done.
+    + intros [= <- _]. by apply Hfin.
+  - intros [= <- _]. by apply Hfin.
+  - unfold do_iter_begin, with_sched. destruct (get_job _ id) as [j|]; [|done]. destruct (j_sched j) as [sc|]; [|done].
+    destruct (sc_phase sc); try done. simpl. intros [= <- _]. by apply Hfin.
+  - unfold do_visit, with_sched. destruct (get_job _ id) as [j|]; [|done]. destruct (j_sched j) as [sc|]; [|done].
+    destruct (sc_phase sc) as [|todo|]; try done. destruct (mem n todo); [|done].
+    destruct (stage_status sc n) as [[]|]; simpl; try (intros [= <- _]; by apply Hfin).
+    destruct (check_status sc j n) as [[] []]; simpl; intros [= <- _]; apply Hfin; try done.
+    all: eapply keeps_trans; [|apply keeps_put]; apply keeps_hsc.
+  - unfold do_run_begin, with_sched. destruct (get_job _ id) as [j|]; [|done]. destruct (j_sched j) as [sc|]; [|done].
+    destruct (mem n (sc_entry sc)); [|done]. destruct (sc_ctx sc); simpl.
+    + intros [= <- _]. apply Hfin. eapply keeps_trans; [|apply keeps_stage_end]. done.
+    + destruct (match find_task j n with Some t => td_empty (jt_def t) | None => true end); simpl; intros [= <- _]; apply Hfin.
+      * eapply keeps_trans; [|apply keeps_stage_end]. done.
+      * eapply keeps_trans; [|apply keeps_htc]. done.
+  - unfold do_run_end, with_sched. destruct (get_job _ id) as [j|]; [|done]. destruct (j_sched j) as [sc|]; [|done].
+    destruct (mem n (sc_running sc)); [|done]. destruct o as [|code|]; simpl.
+    + intros [= <- _]. apply Hfin. eapply keeps_trans; [|apply keeps_stage_end]. eapply keeps_trans; [|apply keeps_htc]. done.
+    + destruct (match find_task j n with Some t => td_allow (jt_def t) | None => false end); simpl; intros [= <- _]; apply Hfin.
+      * eapply keeps_trans; [|apply keeps_stage_end]. eapply keeps_trans; [|apply keeps_htc]. eapply keeps_trans; [|apply keeps_htc]. done.
+      * eapply keeps_trans; [|apply keeps_stage_end]. eapply keeps_trans; [|apply keeps_htc]. done.
+    + destruct (sc_ctx sc); [|done]. simpl. intros [= <- _]. apply Hfin.
+      eapply keeps_trans; [|apply keeps_stage_end]. eapply keeps_trans; [|apply keeps_htc]. done.
+  - unfold do_cancel_deliver. destruct (get_job _ id) as [j|]; [|done]. destruct (j_cancels j); [done|].
+    destruct (j_sched j); simpl; intros [= <- _]; by apply Hfin.
+  - unfold do_sched_return, with_sched. destruct (get_job _ id) as [j|]; [|done]. destruct (j_sched j) as [sc|]; [|done].
+    destruct (sc_phase sc); try done. destruct (sc_entry sc); try done. destruct (sc_running sc); try done.
+    destruct (j_removed j); simpl; intros [= <- _]; apply Hfin; [done|].
+    eapply keeps_trans; [|apply keeps_req]. eapply keeps_trans; [|apply keeps_dequeue_loop]. done.
+  - by intros [= <- _].
+  - unfold do_restart. destruct (st_shutg _); [done|]. destruct (all_quiet _); [|done]. simpl. intros [= <- _]. by apply Hfin.
+  - unfold do_shutdown_begin. destruct (st_shutg _); [done|]. destruct (st_shut _); [done|]. simpl. intros [= <- _]. by apply Hfin.
+  - unfold do_shutdown_force. destruct (st_shutg _) as [[]|]; try done. destruct (any_running _); [|done]. simpl. intros [= <- _].
+    apply Hfin. destruct (keeps_fold_cancel (seq 0 (length (st_jobs s0))) s0) as [H1 H2]. split; simpl; done.
+  - unfold do_shutdown_return. destruct (st_shutg _); [|done]. destruct (_ && _); [|done]. simpl. intros [= <- _].
+    split; done.
+Qed.
+
+(** the store stays consistent with the clock *)
+Lemma store_ok_step s e s' r : RInv (abs s) → store_ok s → step s e = Some (s', r) → store_ok s'.
+Proof.
+  intros Hinv Hst Hs. pose proof (keeps_step s e s' r Hs) as Hk.
+  assert (Hkeep : keeps s s' → store_ok s') by (intros [H1 H2]; unfold store_ok; by rewrite H1, H2).
+  destruct e; try (by apply Hkeep).
+  - destruct Hk as [H1 H2]. unfold store_ok in *. rewrite H1, H2. eapply Forall_impl; [exact Hst|].
+    intros pj. apply pjob_ok_mono. lia.
+  - subst s'. by apply save_store_ok.
+  - destruct Hk as [H1 H2]. unfold store_ok. rewrite H1, H2.
+    pose proof (save_store_ok (clear_req s) Hinv) as H. unfold store_ok in H. done.
+Qed.
+
+Definition SInv (s : state) : Prop := RInv (abs s) ∧ store_ok s.
+
+Theorem reach_sinv s : reach s → SInv s ∧ rreach (abs s).
+Proof.
+  induction 1 as [ds|ds pjs Hok|s e s' r Hr [[Hinv Hst] Hrr] Hs].
+  - split; [split; [apply init_inv|by constructor]|apply rreach_init].
+  - assert (Hterm : forallb (r_terminal 0) (map abs_job (map from_pjob pjs)) = true).
+    { apply forallb_forall. intros rj Hin. apply elem_of_list_In in Hin. rewrite map_map in Hin.
+      change (map (fun x => abs_job (from_pjob x))) with (fmap (M:=list) (fun x => abs_job (from_pjob x))) in Hin.
+      apply elem_of_list_fmap in Hin as (pj & -> & Hin). apply from_pjob_terminal.
+      rewrite Forall_forall in Hok. by apply Hok. }
+    split; [split|].
+    + by apply terminal_inv.
+    + done.
+    + by apply rreach_init_from.
+  - split; [split|].
+    + destruct (refine_step s e s' r Hinv Hst Hs) as [[-> _]|(re & Hre & _)]; [done|]. by eapply rstep_inv.
+    + by eapply store_ok_step.
+    + destruct (refine_step s e s' r Hinv Hst Hs) as [[-> _]|(re & Hre & _)]; [done|]. by eapply rreach_step.
 Qed.
 
 Theorem reach_refines s : reach s → rreach (abs s).
-Proof.
-  induction 1 as [ds|s e s' r Hr IH Hs]; [apply rreach_init|].
-  destruct (refine_step s e s' r (rreach_inv _ IH) Hs) as [[-> _]|[re [Hre _]]]; [done|].
-  by eapply rreach_step.
-Qed.
+Proof. intros H. by apply reach_sinv. Qed.
 
 Corollary reach_inv s : reach s → RInv (abs s).
-Proof. intros H. by apply rreach_inv, reach_refines. Qed.
+Proof. intros H. by apply reach_sinv. Qed.
+
+Corollary reach_store_ok s : reach s → store_ok s.
+Proof. intros H. by apply reach_sinv. Qed.
